@@ -22,7 +22,7 @@ def draw(rng, cfg) -> dict:
     fired = {}
     for seq in range(rng.choice([1, 1, 2, 3, 5, 8])):
         k = rng.random()
-        fr = hdlc_gen.frame_fields(rng, seq, small=rng.random() < 0.6, addr=hdlc_gen.ADDR_ANY)
+        fr = (hdlc_gen.special_frame(rng, seq) if rng.random() < 0.01 else None) or hdlc_gen.frame_fields(rng, seq, small=rng.random() < 0.6, addr=hdlc_gen.ADDR_ANY)
         if k < 0.5:
             items.append(fr)
         elif k < 0.8:
